@@ -34,6 +34,8 @@ EXTENDS Integers, Sequences, FiniteSets, TLC
 CONSTANTS W,          \* window of the code: 99
           Back, Fwd,  \* state numbers the environment uses, relative to a pairing's current `last`:
                       \* last - b (b \in Back) and last + f (f \in Fwd)   (cfg files have no negative numbers)
+          AbsLow,     \* absolute small state numbers the environment also uses (recordings from early in the key
+                      \* epoch, offered again when `last` is near the top of the 16-bit range)
           Pairings,   \* ids of the loaded pairings; each has its own broadcast key
           Foreign,    \* ids / keys that belong to no loaded pairing
           Iids, Vals, \* characteristic ids and abstract values
@@ -101,7 +103,11 @@ DelAfter(a, why) == IF why = "accept" THEN Delivery(a) ELSE << >>
 
 \* ------------------------------------------------------------------ environment
 Bounded == MaxSteps = 0 \/ steps < MaxSteps
-NSet == {x \in {last[p] + d : p \in Pairings, d \in Offsets} : x >= 0 /\ x <= MAXGSN}
+\* State numbers are real 16-bit numbers: Starts may sit at the top of the range (65437 .. 65535), where
+\* last+W exceeds MAXGSN.  The code does not wrap its candidates (a candidate above MAXGSN never matches), and
+\* the requirement is the property's plain "newer than the last accepted one": a small state number offered
+\* while `last` is large is an older one - it is ignored, however it is sealed.
+NSet == {x \in {last[p] + d : p \in Pairings, d \in Offsets} \cup AbsLow : x >= 0 /\ x <= MAXGSN}
 GSet(n) == {x \in {n, n + 1, n - 1} : x >= 0 /\ x <= MAXGSN}
 \* environment restriction (keeps the alphabet small without losing a class of the quantifier):
 \* advertisements that cannot be accepted do not need every (iid, val), and a payload sealed with the
